@@ -1,7 +1,10 @@
 package nc
 
 import (
+	"fmt"
 	"go/ast"
+	"go/constant"
+	"go/token"
 	"go/types"
 	"strings"
 
@@ -80,4 +83,760 @@ func (p *Prog) expandedAway(fn *ssa.Function, pinned map[string]bool) bool {
 		}
 	}
 	return true
+}
+
+// c03Reader: reader / writer / clear agreement on the storage of the generation's records.
+//
+// The property needs three code sites to talk about ONE list: StoreInnovation appends a record to it, the epoch
+// step empties it, and the structural mutators look a record up in what Innovations() hands them. The first two
+// are tied to the field Population.innovations by the obligations above (StoreInnovation.records, *.forgets,
+// innovations.writers). This one ties the third: every value Innovations() can return is
+//
+//   - the receiver's innovations field itself (or a slice expression over all of it), or
+//   - a fresh copy of all of it made during the call (append(<empty>, list...) / make(len(list)) + copy), or
+//   - an empty list, on a path on which the innovations field is known to be empty,
+//
+// and which of these is returned is decided by nothing but that field. If the accessor answers from any other
+// state (a published view, a cache, a memo, a second list, a global), then either the end-of-generation reset of
+// Population.innovations does not empty what the mutators see - a mutation of generation g+1 matches a record of
+// generation g and re-uses numbers / a node id that are not larger than what the population held before - or a
+// record stored in this generation is not seen and the same innovation receives two numbers. Spelling (local
+// aliases, explicit unlock, named result, defer) does not matter: values are followed through locals and phis.
+func (r *Run) c03Reader(innov *types.Var) {
+	p := r.P
+	iface, _ := p.Named(PkgG, "InnovationsObserver").Underlying().(*types.Interface)
+	var impls []*ssa.Function
+	for _, fn := range p.SrcFuncs() {
+		if fn.Name() != "Innovations" || fn.Parent() != nil || fn.Signature.Recv() == nil {
+			continue
+		}
+		rt := fn.Signature.Recv().Type()
+		if iface != nil && !types.Implements(rt, iface) && !types.Implements(types.NewPointer(rt), iface) {
+			continue
+		}
+		impls = append(impls, fn)
+	}
+	for _, fn := range impls {
+		r.Fn(FuncName(fn))
+		construct := "Innovations.reads-record"
+		if ownerOf(fn.Signature.Recv().Type()) != p.Named(PkgG, "Population") {
+			construct += ":" + FuncName(fn)
+		}
+		bad := c03AccessorLeaks(fn, innov)
+		r.Check(len(bad) == 0, construct, p.Pos(fn.Pos()), "every value returned is the receiver's innovations list (or a full copy of it, or empty when it is empty), chosen by nothing but that list",
+			FuncName(fn)+" does not hand out exactly the list that StoreInnovation appends to and the end of the epoch empties: "+strings.Join(bad, "; ")+
+				": the reset of Population.innovations then does not forget what the mutators look up (records of generation g are matched in generation g+1, numbers and node ids are re-used) or a record of this generation is not found (one innovation, two numbers)")
+	}
+	r.Floor("implementations of InnovationsObserver.Innovations", len(impls), 1)
+}
+
+// c03AccessorLeaks lists what keeps fn from being a plain accessor of the receiver's field `list`.
+func c03AccessorLeaks(fn *ssa.Function, list *types.Var) []string {
+	tm := NewTermer(fn)
+	var bad []string
+	seenBad := map[string]bool{}
+	report := func(s string) {
+		if !seenBad[s] {
+			seenBad[s] = true
+			bad = append(bad, s)
+		}
+	}
+	// isList: t is recv.<list>, possibly under slice expressions that keep every element
+	var isList func(t *Term) bool
+	isList = func(t *Term) bool {
+		if t == nil {
+			return false
+		}
+		switch t.Op {
+		case "field":
+			if t.Obj != types.Object(list) {
+				return false
+			}
+			// the receiver, possibly kept in a local because a closure (a deferred unlock) captures it
+			alts := t.Args[0].Alternatives()
+			for _, a := range alts {
+				if a.Op != "recv" {
+					return false
+				}
+			}
+			return len(alts) > 0
+		case "phi":
+			if len(t.Args) == 0 {
+				return false
+			}
+			for _, a := range t.Args {
+				if !isList(a) {
+					return false
+				}
+			}
+			return true
+		case "slice":
+			sl, ok := t.V.(*ssa.Slice)
+			if !ok || !isList(t.Args[0]) {
+				return false
+			}
+			if sl.Low != nil {
+				if k, isK := sl.Low.(*ssa.Const); !isK || k.Value == nil || k.Value.ExactString() != "0" {
+					return false
+				}
+			}
+			if sl.High != nil {
+				ht := tm.Of(sl.High)
+				if !(ht.Op == "len" && isList(ht.Args[0])) {
+					return false
+				}
+			}
+			return true
+		}
+		return false
+	}
+	// pure: the value of t is a function of the list alone
+	var pure func(t *Term) bool
+	pure = func(t *Term) bool {
+		if t == nil {
+			return false
+		}
+		switch t.Op {
+		case "const", "nil":
+			return true
+		case "field":
+			return isList(t)
+		case "len", "bin", "un", "slice", "conv", "elem", "phi":
+			if len(t.Args) == 0 {
+				return false
+			}
+			for _, a := range t.Args {
+				if !pure(a) {
+					return false
+				}
+			}
+			return true
+		}
+		return false
+	}
+	isZero := func(v ssa.Value) bool {
+		k, ok := v.(*ssa.Const)
+		return ok && k.Value != nil && k.Value.ExactString() == "0"
+	}
+	knownEmpty := func(gs []Guard) bool {
+		for _, g := range gs {
+			x, y, op, ok := CmpFact(g.Cond, g.True)
+			if !ok {
+				continue
+			}
+			tx := tm.Of(x)
+			k, isK := y.(*ssa.Const)
+			if !isK {
+				continue
+			}
+			if tx.Op == "len" && isList(tx.Args[0]) && k.Value != nil {
+				s := k.Value.ExactString()
+				if (s == "0" && (op == token.EQL || op == token.LEQ)) || (s == "1" && op == token.LSS) {
+					return true
+				}
+			}
+			if isList(tx) && k.Value == nil && op == token.EQL {
+				return true
+			}
+		}
+		return false
+	}
+	emptyFresh := func(v ssa.Value) bool {
+		switch x := v.(type) {
+		case *ssa.Const:
+			return x.Value == nil
+		case *ssa.MakeSlice:
+			return isZero(x.Len)
+		case *ssa.Slice:
+			// []T{}: a slice of a fresh zero-length array
+			if al, ok := x.X.(*ssa.Alloc); ok {
+				if pt, ok := al.Type().Underlying().(*types.Pointer); ok {
+					if at, ok := pt.Elem().Underlying().(*types.Array); ok {
+						return at.Len() == 0
+					}
+				}
+			}
+		}
+		return false
+	}
+	checkGuards := func(gs []Guard) {
+		for _, g := range gs {
+			if t := tm.Of(g.Cond); !pure(t) {
+				report("what is returned depends on " + t.String())
+			}
+		}
+	}
+	edgeGuards := func(pred, blk *ssa.BasicBlock) []Guard {
+		gs := append([]Guard{}, Guards(pred)...)
+		if iff, ok := pred.Instrs[len(pred.Instrs)-1].(*ssa.If); ok && pred.Succs[0] != pred.Succs[1] {
+			if pred.Succs[0] == blk {
+				gs = append(gs, Guard{iff.Cond, true, pred})
+			} else if pred.Succs[1] == blk {
+				gs = append(gs, Guard{iff.Cond, false, pred})
+			}
+		}
+		return gs
+	}
+	visiting := map[ssa.Value]bool{}
+	var leaf func(v ssa.Value, at *ssa.BasicBlock, gs []Guard, depth int)
+	leaf = func(v ssa.Value, at *ssa.BasicBlock, gs []Guard, depth int) {
+		if depth > 12 || visiting[v] {
+			if depth > 12 {
+				report("the returned value is too deeply nested to follow")
+			}
+			return
+		}
+		visiting[v] = true
+		defer delete(visiting, v)
+		checkGuards(gs)
+		switch x := v.(type) {
+		case *ssa.Phi:
+			for i, e := range x.Edges {
+				if i < len(x.Block().Preds) {
+					leaf(e, x.Block().Preds[i], edgeGuards(x.Block().Preds[i], x.Block()), depth+1)
+				}
+			}
+			return
+		case *ssa.ChangeType:
+			leaf(x.X, at, gs, depth+1)
+			return
+		case *ssa.UnOp:
+			if al, ok := x.X.(*ssa.Alloc); ok && x.Op == token.MUL {
+				// a local kept in memory (named result, or any result of a function that defers)
+				n := 0
+				for _, ref := range *al.Referrers() {
+					switch y := ref.(type) {
+					case *ssa.Store:
+						if y.Addr == ssa.Value(al) {
+							n++
+							leaf(y.Val, y.Block(), Guards(y.Block()), depth+1)
+						} else {
+							report("the address of the result variable is stored away")
+						}
+					case *ssa.UnOp, *ssa.DebugRef:
+					case *ssa.MakeClosure:
+						// captured by a closure (a deferred unlock): fine as long as the closure does not assign it
+						if cf, isFn := y.Fn.(*ssa.Function); isFn {
+							for i, bnd := range y.Bindings {
+								if bnd == ssa.Value(al) && (i >= len(cf.FreeVars) || closureStores(cf, cf.FreeVars[i], 0)) {
+									report("the result variable is assigned inside the closure " + cf.Name())
+								}
+							}
+						} else {
+							report("the result variable is captured by " + y.String())
+						}
+					default:
+						report("the result variable is also reachable from " + ref.String())
+					}
+				}
+				if n == 0 && !knownEmpty(gs) {
+					report("an unset result is returned although the list may hold records")
+				}
+				return
+			}
+		}
+		if emptyFresh(v) {
+			if !knownEmpty(gs) {
+				report("an empty list is returned although " + list.Name() + " may hold records")
+			}
+			return
+		}
+		if isList(tm.Of(v)) {
+			return
+		}
+		// a fresh copy of the whole list
+		if base, _, ok := appendCall(v); ok {
+			c := v.(*ssa.Call)
+			if emptyFresh(base) && isList(tm.Of(c.Call.Args[1])) {
+				return
+			}
+		}
+		if mk, ok := v.(*ssa.MakeSlice); ok {
+			if lt := tm.Of(mk.Len); lt.Op == "len" && isList(lt.Args[0]) {
+				copied := false
+				for _, ref := range *mk.Referrers() {
+					c, isCall := ref.(*ssa.Call)
+					if !isCall {
+						continue
+					}
+					if b, isB := c.Call.Value.(*ssa.Builtin); isB && b.Name() == "copy" && len(c.Call.Args) == 2 && c.Call.Args[0] == ssa.Value(mk) && isList(tm.Of(c.Call.Args[1])) {
+						if c.Block() == at && at != nil || (at != nil && c.Block().Dominates(at)) {
+							copied = true
+						}
+					}
+				}
+				if copied {
+					return
+				}
+			}
+		}
+		report("it can return " + tm.Of(v).String())
+	}
+	nret := 0
+	for _, b := range fn.Blocks {
+		if b == fn.Recover {
+			continue
+		}
+		ret, ok := b.Instrs[len(b.Instrs)-1].(*ssa.Return)
+		if !ok || len(ret.Results) != 1 {
+			continue
+		}
+		nret++
+		leaf(ret.Results[0], b, Guards(b), 0)
+	}
+	if nret == 0 {
+		report("no return of a single list found")
+	}
+	return bad
+}
+
+// constSum splits an integer term into a non-constant part and the sum of the constants added to or subtracted
+// from it, whatever the spelling: x+c, c+x, x-c, (x+c1)-c2, conversions in between. ok is false when a constant
+// cannot be read or the term subtracts the non-constant part (c-x).
+func constSum(t *Term) (rest *Term, k int64, ok bool) {
+	for t != nil && t.Op == "conv" {
+		t = t.Args[0]
+	}
+	if t == nil {
+		return nil, 0, false
+	}
+	if t.Op == "bin" && (t.Name == "+" || t.Name == "-") {
+		kval := func(x *Term) (int64, bool) {
+			for x.Op == "conv" {
+				x = x.Args[0]
+			}
+			if x.Op != "const" {
+				return 0, false
+			}
+			c, isK := x.V.(*ssa.Const)
+			if !isK || c.Value == nil {
+				return 0, false
+			}
+			return constant.Int64Val(constant.ToInt(c.Value))
+		}
+		a, b := t.Args[0], t.Args[1]
+		if v, isK := kval(b); isK {
+			r, k0, ok0 := constSum(a)
+			if t.Name == "-" {
+				v = -v
+			}
+			return r, k0 + v, ok0
+		}
+		if v, isK := kval(a); isK && t.Name == "+" {
+			r, k0, ok0 := constSum(b)
+			return r, k0 + v, ok0
+		}
+	}
+	return t, 0, true
+}
+
+// underConstSum strips conversions and additions / subtractions of constants from v (`int64(x)+1` -> x).
+func underConstSum(v ssa.Value) ssa.Value {
+	for depth := 0; depth < 8; depth++ {
+		switch x := v.(type) {
+		case *ssa.Convert:
+			v = x.X
+			continue
+		case *ssa.ChangeType:
+			v = x.X
+			continue
+		case *ssa.BinOp:
+			if x.Op == token.ADD || x.Op == token.SUB {
+				if _, isK := x.Y.(*ssa.Const); isK {
+					v = x.X
+					continue
+				}
+				if _, isK := x.X.(*ssa.Const); isK && x.Op == token.ADD {
+					v = x.Y
+					continue
+				}
+			}
+		}
+		break
+	}
+	return v
+}
+
+// c03MaxProblems: `result` is computed as a maximum. Wherever two different values meet (a phi that is not the
+// entry of a loop, or the back edges of a loop's phi), the value carried by an edge must be known, on that edge,
+// to be at least every other value that can arrive there: by a comparison that holds on the edge (`a > b`, `a >= b`,
+// in any spelling), or because the other value is an element of a list that is known to be empty on the edge, or
+// because the carried value is itself such a merge over the other one. Returns a description of every edge for
+// which this is not established.
+//
+// Used for getLastNodeId / getNextGeneInnovNum: the population's counters start from these results, so a result
+// that can be SMALLER than a node id / innovation number held by a module (control gene) of the start genome lets
+// the first numbers issued collide with ones already in use.
+func c03MaxProblems(p *Prog, fn *ssa.Function, result ssa.Value) []string {
+	tm := NewTermer(fn)
+	loops := Loops(fn)
+	headerOf := func(b *ssa.BasicBlock) *Loop {
+		for _, l := range loops {
+			if l.Header == b {
+				return l
+			}
+		}
+		return nil
+	}
+	key := func(v ssa.Value) string {
+		if ph, ok := v.(*ssa.Phi); ok {
+			return fmt.Sprintf("phi:%s@%d", ph.Name(), ph.Block().Index)
+		}
+		return CanonTerm(tm.Of(v))
+	}
+	fact := func(gs []Guard, a, b ssa.Value) bool {
+		ka, kb := key(a), key(b)
+		for _, g := range gs {
+			x, y, op, ok := CmpFact(g.Cond, g.True)
+			if !ok {
+				continue
+			}
+			kx, ky := key(x), key(y)
+			if kx == ka && ky == kb && (op == token.GTR || op == token.GEQ) {
+				return true
+			}
+			if kx == kb && ky == ka && (op == token.LSS || op == token.LEQ) {
+				return true
+			}
+		}
+		return false
+	}
+	// emptyFact: b is read from an element of a list whose length is known to be zero on the edge
+	emptyFact := func(gs []Guard, b ssa.Value) bool {
+		var list *Term
+		tm.Of(b).Walk(func(t *Term) bool {
+			if list == nil && t.Op == "elem" {
+				list = t.Args[0]
+			}
+			return list == nil
+		})
+		if list == nil {
+			return false
+		}
+		kl := CanonTerm(list)
+		for _, g := range gs {
+			x, y, op, ok := CmpFact(g.Cond, g.True)
+			if !ok {
+				continue
+			}
+			k, isK := y.(*ssa.Const)
+			if !isK {
+				continue
+			}
+			tx := tm.Of(x)
+			if tx.Op == "len" && CanonTerm(tx.Args[0]) == kl && k.Value != nil {
+				s := k.Value.ExactString()
+				if (s == "0" && (op == token.EQL || op == token.LEQ)) || (s == "1" && op == token.LSS) {
+					return true
+				}
+			}
+			if CanonTerm(tx) == kl && k.Value == nil && op == token.EQL {
+				return true
+			}
+		}
+		return false
+	}
+	// contains: b is one of the values merged by a (through phis that are not loop entries)
+	var contains func(a, b ssa.Value, depth int) bool
+	contains = func(a, b ssa.Value, depth int) bool {
+		if key(a) == key(b) {
+			return true
+		}
+		ph, ok := a.(*ssa.Phi)
+		if !ok || depth > 6 || headerOf(ph.Block()) != nil {
+			return false
+		}
+		for _, e := range ph.Edges {
+			if contains(e, b, depth+1) {
+				return true
+			}
+		}
+		return false
+	}
+	var ge func(gs []Guard, a, b ssa.Value, depth int) bool
+	ge = func(gs []Guard, a, b ssa.Value, depth int) bool {
+		if key(a) == key(b) || fact(gs, a, b) || contains(a, b, 0) {
+			return true
+		}
+		if ph, ok := b.(*ssa.Phi); ok {
+			if depth > 6 || headerOf(ph.Block()) != nil {
+				return false
+			}
+			for _, e := range ph.Edges {
+				if !ge(gs, a, e, depth+1) {
+					return false
+				}
+			}
+			return true
+		}
+		return emptyFact(gs, b)
+	}
+	edgeGuards := func(pred, blk *ssa.BasicBlock) []Guard {
+		gs := append([]Guard{}, Guards(pred)...)
+		if iff, ok := pred.Instrs[len(pred.Instrs)-1].(*ssa.If); ok && pred.Succs[0] != pred.Succs[1] {
+			if pred.Succs[0] == blk {
+				gs = append(gs, Guard{iff.Cond, true, pred})
+			} else if pred.Succs[1] == blk {
+				gs = append(gs, Guard{iff.Cond, false, pred})
+			}
+		}
+		return gs
+	}
+	var bad []string
+	seen := map[*ssa.Phi]bool{}
+	var walk func(v ssa.Value)
+	walk = func(v ssa.Value) {
+		ph, ok := v.(*ssa.Phi)
+		if !ok || seen[ph] {
+			return
+		}
+		seen[ph] = true
+		hl := headerOf(ph.Block())
+		type edge struct {
+			v    ssa.Value
+			gs   []Guard
+			pred *ssa.BasicBlock
+		}
+		var sel []edge
+		for i, e := range ph.Edges {
+			if i >= len(ph.Block().Preds) {
+				continue
+			}
+			pred := ph.Block().Preds[i]
+			walk(e)
+			if hl != nil && !hl.Blocks[pred] {
+				continue // the value the loop starts with
+			}
+			sel = append(sel, edge{e, edgeGuards(pred, ph.Block()), pred})
+		}
+		for i, a := range sel {
+			for j, b := range sel {
+				if i == j || key(a.v) == key(b.v) {
+					continue
+				}
+				if !ge(a.gs, a.v, b.v, 0) {
+					bad = append(bad, fmt.Sprintf("at %s the result takes %s although %s may be larger", p.Pos(firstBlockPosOr(a.pred, ph.Pos())), tm.Of(a.v).String(), tm.Of(b.v).String()))
+				}
+			}
+		}
+	}
+	walk(result)
+	return bad
+}
+
+func firstBlockPosOr(b *ssa.BasicBlock, dflt token.Pos) token.Pos {
+	for i := len(b.Instrs) - 1; i >= 0; i-- {
+		if pos := b.Instrs[i].Pos(); pos.IsValid() {
+			return pos
+		}
+	}
+	return dflt
+}
+
+// c03PathAfter is FindPath's flag-sensitive search started right after instruction `start`, with one addition: the
+// branch outcomes in `seed` (those that dominate the start, so they hold whenever it executes) are assumed before the
+// walk begins. A search that starts in the middle of a function otherwise knows nothing about the flags that were
+// decided on the way there (`rec, found := lookup(..); if found { <start> }; if !found {..}`). As in FindPath, a value
+// is forgotten as soon as its defining block is entered again, and a branch is pruned only when its condition is
+// decided, so the feasible paths are over-approximated (sound for "no path exists").
+func c03PathAfter(p *Prog, fn *ssa.Function, start ssa.Instruction, seed []Guard, nonNil []ssa.Value, target func(ssa.Instruction) bool, avoidEdge func(from, to *ssa.BasicBlock) bool) []string {
+	seen := map[string]bool{}
+	var found *stateNode
+	var walkBlock func(b, from *ssa.BasicBlock, startIdx int, env pathEnv, par *stateNode) bool
+	walkBlock = func(b, from *ssa.BasicBlock, startIdx int, env pathEnv, par *stateNode) bool {
+		node := &stateNode{b: b, par: par}
+		if startIdx == 0 {
+			newVals := map[ssa.Value]envVal{}
+			for _, in := range b.Instrs {
+				phi, ok := in.(*ssa.Phi)
+				if !ok {
+					break
+				}
+				for i, pr := range b.Preds {
+					if pr == from {
+						newVals[phi] = env.eval(phi.Edges[i])
+						break
+					}
+				}
+			}
+			for _, in := range b.Instrs {
+				if v, ok := in.(ssa.Value); ok {
+					delete(env, v)
+				}
+			}
+			for k, v := range newVals {
+				if v.known {
+					env[k] = v
+				}
+			}
+			k := fmt.Sprintf("%d|", b.Index) + env.key()
+			if seen[k] {
+				return false
+			}
+			seen[k] = true
+		}
+		for i := startIdx; i < len(b.Instrs); i++ {
+			if target(b.Instrs[i]) {
+				node.hit = b.Instrs[i]
+				found = node
+				return true
+			}
+		}
+		type nxt struct {
+			s       *ssa.BasicBlock
+			assume  bool
+			outcome bool
+		}
+		var nexts []nxt
+		last := b.Instrs[len(b.Instrs)-1]
+		if iff, ok := last.(*ssa.If); ok {
+			dec := env.eval(iff.Cond)
+			if dec.known && dec.c != nil && dec.c.Kind() == constant.Bool {
+				if constant.BoolVal(dec.c) {
+					nexts = append(nexts, nxt{b.Succs[0], true, true})
+				} else {
+					nexts = append(nexts, nxt{b.Succs[1], true, false})
+				}
+			} else {
+				nexts = append(nexts, nxt{b.Succs[0], true, true}, nxt{b.Succs[1], true, false})
+			}
+		} else {
+			for _, s := range b.Succs {
+				nexts = append(nexts, nxt{s, false, false})
+			}
+		}
+		for _, n := range nexts {
+			if avoidEdge != nil && avoidEdge(b, n.s) {
+				continue
+			}
+			e2 := env.clone()
+			if n.assume {
+				e2.assume(last.(*ssa.If).Cond, n.outcome)
+			}
+			if walkBlock(n.s, b, 0, e2, node) {
+				return true
+			}
+		}
+		return false
+	}
+	env := pathEnv{}
+	for _, v := range nonNil {
+		env[v] = envVal{known: true, nonNil: true}
+	}
+	for _, g := range seed {
+		env.assume(g.Cond, g.True)
+	}
+	walkBlock(start.Block(), nil, instrIndex(start)+1, env, nil)
+	if found == nil {
+		return nil
+	}
+	var out []string
+	var rev []*stateNode
+	for n := found; n != nil; n = n.par {
+		rev = append(rev, n)
+	}
+	for i := len(rev) - 1; i >= 0; i-- {
+		out = append(out, describeBlock(p, rev[i].b, rev[i].hit))
+	}
+	return out
+}
+
+// termPoly reads an integer term as a polynomial over its non-arithmetic sub-terms (parameters, loads, calls), so that
+// two spellings of one expression compare equal: in+out+maxHidden+1, 1+(maxHidden+in+out), n*n+1 with n := in+out+maxHidden.
+func termPoly(t *Term) nfPoly {
+	for t != nil && t.Op == "conv" {
+		t = t.Args[0]
+	}
+	if t == nil {
+		return nfPoly{"?": 1}
+	}
+	switch t.Op {
+	case "const":
+		if k, ok := t.V.(*ssa.Const); ok && k.Value != nil {
+			if v, exact := constant.Float64Val(constant.ToFloat(k.Value)); exact || k.Value.Kind() == constant.Int {
+				if v == 0 {
+					return nfPoly{}
+				}
+				return nfPoly{"": v}
+			}
+		}
+	case "bin":
+		switch t.Name {
+		case "+":
+			return polyAdd(termPoly(t.Args[0]), termPoly(t.Args[1]), 1)
+		case "-":
+			return polyAdd(termPoly(t.Args[0]), termPoly(t.Args[1]), -1)
+		case "*":
+			return polyMul(termPoly(t.Args[0]), termPoly(t.Args[1]))
+		}
+	case "phi":
+		if alts := t.Alternatives(); len(alts) == 1 && alts[0] != t {
+			return termPoly(alts[0])
+		}
+	}
+	return nfPoly{strings.ReplaceAll(CanonTerm(t), "*", "·"): 1}
+}
+
+// c03RandomCounters: the population of random genomes. newGenomeRand(id, in, out, n, maxHidden, ..) numbers its nodes
+// 1..in+out+maxHidden and its genes by the cell of the (in+out+maxHidden)^2 connection matrix (0-based), so the
+// counters must end up at or above T = in+out+maxHidden resp. T*T-1 - with T taken from the arguments of the very
+// newGenomeRand call that builds the organisms - on every return without an error. Otherwise the first node id /
+// innovation number issued to such a population collides with one its genomes already hold.
+func (r *Run) c03RandomCounters() {
+	p := r.P
+	fn := p.Func(PkgG, "NewPopulationRandom")
+	r.Fn(FuncName(fn))
+	tm := NewTermer(fn)
+	gen := p.Func(PkgG, "newGenomeRand")
+	calls := CallsTo(fn, gen)
+	if len(calls) == 0 {
+		r.Bad("NewPopulationRandom.counters", p.Pos(fn.Pos()), "NewPopulationRandom does not build its organisms with newGenomeRand: the bound on the node ids and numbers they hold is not known")
+		return
+	}
+	for _, x := range []struct {
+		field string
+		sq    bool
+		min   float64
+	}{{"nextNodeId", false, 0}, {"nextInnovNum", true, -1}} {
+		fld := p.Field(PkgG, "Population", x.field)
+		sts := FieldStores(fn, fld)
+		if len(sts) == 0 {
+			r.Bad("NewPopulationRandom."+x.field, p.Pos(fn.Pos()), "NewPopulationRandom never sets "+x.field+": the numbers issued collide with the ones the random genomes hold")
+			continue
+		}
+		for _, st := range sts {
+			val := termPoly(tm.Of(st.Val))
+			ok := true
+			var worst string
+			for _, ci := range calls {
+				a := ci.Common().Args
+				if len(a) < 5 {
+					ok = false
+					continue
+				}
+				T := polyAdd(polyAdd(termPoly(tm.Of(a[1])), termPoly(tm.Of(a[2])), 1), termPoly(tm.Of(a[4])), 1)
+				bound := T
+				if x.sq {
+					bound = polyMul(T, T)
+				}
+				d, isK := polyAdd(val, bound, -1).isConst()
+				if !isK || d < x.min {
+					ok = false
+					worst = bound.String()
+				}
+			}
+			what := "in+out+maxHidden"
+			if x.sq {
+				what = "(in+out+maxHidden)^2 - 1"
+			}
+			r.Check(ok, "NewPopulationRandom."+x.field, p.Pos(st.Pos()), x.field+" starts at or above "+what+" of the newGenomeRand call",
+				fmt.Sprintf("NewPopulationRandom sets %s to %s, which is not known to reach the largest value the random genomes hold (%s): the first one issued can collide", x.field, tm.Of(st.Val).String(), worst))
+			w := FindPath(p, PathQuery{Fn: fn, Target: func(in ssa.Instruction) bool { return IsReturn(in) && in.Block() != fn.Recover && !c03IsErrReturn(in) },
+				Avoid: func(in ssa.Instruction) bool { return in == ssa.Instruction(st) }})
+			if len(sts) == 1 {
+				r.Check(w == nil, "NewPopulationRandom."+x.field+".always", p.Pos(st.Pos()), "every return without an error has set "+x.field,
+					"NewPopulationRandom can return a population without having set "+x.field+": it stays at zero", w...)
+			}
+		}
+	}
 }
